@@ -8,6 +8,7 @@ import (
 	"context"
 	"crypto/ed25519"
 	"crypto/sha256"
+	"errors"
 	"fmt"
 	"strconv"
 	"sync"
@@ -15,10 +16,12 @@ import (
 	"time"
 
 	"github.com/ChainSafe/sygma-relayer/comm"
+	"github.com/ChainSafe/sygma-relayer/keyshare"
 	"github.com/libp2p/go-libp2p/core/crypto"
 	"github.com/libp2p/go-libp2p/core/host"
 	"github.com/libp2p/go-libp2p/core/peer"
 	"github.com/libp2p/go-libp2p/core/peerstore"
+	"github.com/rs/zerolog"
 )
 
 // ---------------------------------------------------------------- peers
@@ -140,17 +143,18 @@ type c07Event struct {
 // notification channel that every state change renews, and `hook` runs synchronously inside the calling goroutine of the
 // code under test, so that "when the coordinator subscribes to X, do Y first" needs no clock at all.
 type c07Comm struct {
-	mu     sync.Mutex
-	notify chan struct{} // closed and replaced on every state change
-	hook   func(ev c07Event)
-	next   int
-	subs   []*c07Sub
-	hist   []c07Event // every subscription ever made (conditions on it are monotone: they cannot be missed by a late observer)
-	casts  []c07Cast
-	closed []string
-	nSub   int
-	nUnsub int
-	mark   int // subscriptions with id ≤ mark belong to an earlier attempt and are not delivered to
+	mu      sync.Mutex
+	notify  chan struct{} // closed and replaced on every state change
+	hook    func(ev c07Event)
+	next    int
+	subs    []*c07Sub
+	hist    []c07Event // every subscription ever made (conditions on it are monotone: they cannot be missed by a late observer)
+	casts   []c07Cast
+	closed  []string
+	nSub    int
+	nUnsub  int
+	castErr func(b c07Cast) error // scripted result of Broadcast (nil: success)
+	mark    int                   // subscriptions with id ≤ mark belong to an earlier attempt and are not delivered to
 	// markFirst: the first subscription to this message type sets the mark to its own id, atomically with being recorded
 	markFirst *comm.MessageType
 }
@@ -173,12 +177,17 @@ func (c *c07Comm) CloseSession(sessionID string) {
 
 func (c *c07Comm) Broadcast(peers peer.IDSlice, msg []byte, msgType comm.MessageType, sessionID string) error {
 	c.mu.Lock()
-	c.casts = append(c.casts, c07Cast{msgType, sessionID, append([]peer.ID{}, peers...), append([]byte{}, msg...)})
+	b := c07Cast{msgType, sessionID, append([]peer.ID{}, peers...), append([]byte{}, msg...)}
+	c.casts = append(c.casts, b)
 	c.changed()
 	h := c.hook
+	ce := c.castErr
 	c.mu.Unlock()
 	if h != nil {
 		h(c07Event{"cast", 0, sessionID, msgType})
+	}
+	if ce != nil {
+		return ce(b)
 	}
 	return nil
 }
@@ -299,6 +308,9 @@ func c07Scale() time.Duration {
 // c07Escalating wraps an op: run, and if any bound was exhausted run again with the next level.
 func c07Escalating(f Op) Op {
 	return func(a []string) string {
+		// the code under test logs at its default level (into io.Discard): what it formats for its log lines is executed
+		zerolog.SetGlobalLevel(zerolog.DebugLevel)
+		defer zerolog.SetGlobalLevel(zerolog.Disabled)
 		res := ""
 		for lvl := range c07Levels {
 			atomic.StoreInt32(&c07Level, int32(lvl))
@@ -350,6 +362,80 @@ func (c *c07Comm) castsOf(typ comm.MessageType) []c07Cast {
 	return out
 }
 
+// ---------------------------------------------------------------- key-share stores, panics, logging
+
+var c07FixECDSA = map[int]keyshare.ECDSAKeyshare{}
+var c07FixFrost = map[int]keyshare.FrostKeyshare{}
+var c07FixMu sync.Mutex
+
+// c07FixtureECDSA / c07FixtureFrost: the repository's own test key shares (tss/test/keyshares), loaded once.
+func c07FixtureECDSA(i int) keyshare.ECDSAKeyshare {
+	c07FixMu.Lock()
+	defer c07FixMu.Unlock()
+	if ks, ok := c07FixECDSA[i]; ok {
+		return ks
+	}
+	ks, err := keyshare.NewECDSAKeyshareStore(fmt.Sprintf("%s/tss/test/keyshares/%d.keyshare", repoRoot(), i)).GetKeyshare()
+	if err != nil {
+		panic("fixture key share: " + err.Error())
+	}
+	c07FixECDSA[i] = ks
+	return ks
+}
+func c07FixtureFrost(i int) keyshare.FrostKeyshare {
+	c07FixMu.Lock()
+	defer c07FixMu.Unlock()
+	if ks, ok := c07FixFrost[i]; ok {
+		return ks
+	}
+	ks, err := keyshare.NewFrostKeyshareStore(fmt.Sprintf("%s/tss/test/keyshares/%d-frost.keyshare", repoRoot(), i)).GetKeyshare()
+	if err != nil {
+		panic("fixture key share: " + err.Error())
+	}
+	c07FixFrost[i] = ks
+	return ks
+}
+
+// c07ECDSAFetcher / c07FrostFetcher serve fixture key share 0 with the committee and threshold of the scenario.
+type c07ECDSAFetcher struct {
+	peers []peer.ID
+	t     int
+}
+
+func (f *c07ECDSAFetcher) GetKeyshare() (keyshare.ECDSAKeyshare, error) {
+	ks := c07FixtureECDSA(0)
+	ks.Peers, ks.Threshold = append([]peer.ID{}, f.peers...), f.t
+	return ks, nil
+}
+func (f *c07ECDSAFetcher) LockKeyshare()   {}
+func (f *c07ECDSAFetcher) UnlockKeyshare() {}
+
+type c07FrostFetcher struct {
+	peers []peer.ID
+	t     int
+}
+
+func (f *c07FrostFetcher) GetKeyshare() (keyshare.FrostKeyshare, error) {
+	ks := c07FixtureFrost(0)
+	ks.Peers, ks.Threshold = append([]peer.ID{}, f.peers...), f.t
+	return ks, nil
+}
+func (f *c07FrostFetcher) LockKeyshare()   {}
+func (f *c07FrostFetcher) UnlockKeyshare() {}
+
+var errC07Panic = errors.New("panic in the code under test")
+
+// c07Guard runs a call into the code under test in the scenario's own goroutine; a panic there (conc pools re-raise
+// the panics of their tasks in Wait) becomes the outcome `panic` instead of killing the driver.
+func c07Guard(f func() error) (err error) {
+	defer func() {
+		if r := recover(); r != nil {
+			err = errC07Panic
+		}
+	}()
+	return f()
+}
+
 // ---------------------------------------------------------------- recording process
 
 type c07Run struct {
@@ -378,6 +464,10 @@ type c07Proc struct {
 	stops     int
 	started   chan struct{} // receives one token per Run entered
 	onEnter   func(i int)   // called when the i-th Run is entered, before `started` is signalled
+	// runReal / stopReal: the process is the REAL one (one object kept alive across the attempts); Run and Stop are
+	// recorded and then performed by it
+	runReal  func(ctx context.Context, coordinator bool, resultChn chan interface{}, params []byte) error
+	stopReal func()
 }
 
 func (p *c07Proc) Run(ctx context.Context, coordinator bool, resultChn chan interface{}, params []byte) error {
@@ -391,13 +481,23 @@ func (p *c07Proc) Run(ctx context.Context, coordinator bool, resultChn chan inte
 	if p.started != nil {
 		p.started <- struct{}{}
 	}
+	if p.runReal != nil {
+		return p.runReal(ctx, coordinator, resultChn, params)
+	}
 	if i < len(p.outcomes) && p.outcomes[i] != nil {
 		return p.outcomes[i](ctx)
 	}
 	<-ctx.Done()
 	return nil
 }
-func (p *c07Proc) Stop() { p.mu.Lock(); p.stops++; p.mu.Unlock() }
+func (p *c07Proc) Stop() {
+	p.mu.Lock()
+	p.stops++
+	p.mu.Unlock()
+	if p.stopReal != nil {
+		p.stopReal()
+	}
+}
 func (p *c07Proc) Ready(r []peer.ID, e []peer.ID) (bool, error) {
 	if p.real != nil {
 		return p.real.Ready(r, e)
